@@ -20,7 +20,7 @@ import random, time
 from ..core import Check, MachineryFailure
 from .neuron_common import (mc_constants, TLCJobs, launch_mc, collect_mc, confirm_attr_counterexample,
                             CAT_INVARIANTS, dy_variants, launch_gen, collect_gen, replay_dyadic, neuron_runs,
-                            record_and_validate, record_runs, canary_trace, canary_replay)
+                            record_and_validate, record_runs, canary_trace, canary_replay, require_case_coverage)
 
 PID = "C03"
 
@@ -79,6 +79,8 @@ def run(tier: str, seed: int) -> int:
 
     # ---- B (validation): per-element traces validated by TLC
     traces, metas, found = record_and_validate(chk, recorded, site="trace:neuron-step")
+    if not chk.violations:
+        require_case_coverage(chk)      # vacuity guard (a reported violation takes precedence over it)
 
     chk.note(f"t={time.time()-chk.t0:.1f}s traces validated")
     # ---- canaries
